@@ -152,7 +152,7 @@ def run(ctx: Ctx) -> RuleResult:
                 defs = []
                 owner = hm.owner_class
                 for c in k.mro():
-                    for m in c.methods.values():
+                    for m in c.swept_methods():
                         sn = m.self_name()
                         for n in m.body_nodes():
                             if isinstance(n, ast.Assign):
@@ -220,7 +220,7 @@ def run(ctx: Ctx) -> RuleResult:
         # classes that hash on the fly (Tree, Symbol ...) are mutable by design and not constrained here
         is_cached = kind == 'method' and any(a.startswith('_hash') for a in _self_reads(hm, None, repo))
         for c in (k.mro() if is_cached else []):
-            for m in c.methods.values():
+            for m in c.swept_methods():
                 if m.name in CONSTRUCTORS:
                     continue
                 sn = m.self_name()
